@@ -1,10 +1,13 @@
 (* Project.v — shape.ConvertPointListToProjectedPointList / ConvertProjectedPointListToPointList (shape/point.go).
    The two functions are list wrappers around the third-party datum transform wgs84.SafeTransform, which is NOT transcribed:
    it enters as a Section variable `tr` (answered by the library itself at run time). This file holds
-     1. the executable model of the wrappers (function by function, including the error paths and the ignored NewPoint error),
-     2. structural theorems for EVERY oracle: length, order, altitude carried, error <-> oracle error, prefix on error, unknown EPSG,
+     1. the executable model of the wrappers (function by function, including the error paths: unknown EPSG code, transform error,
+        NewPoint refusal),
+     2. structural theorems for EVERY oracle: length, order, altitude carried, error <-> (unknown code or oracle error or NewPoint
+        refusal), prefix on error,
      3. the exact (rational) checkers of the numeric claims and their soundness over the reals (MercatorR18.v),
-     4. the finding classes (decidable predicates) and refutation witnesses. *)
+     4. the open finding alt_fed_to_datum (witness) and regression Examples for the two repaired defects (old control flow kept, labelled
+        HISTORICAL). *)
 From Coq Require Import ZArith Floats Bool List QArith Qreals Reals Lra Lia.
 From SID Require Import Base F64 ExactRef MercatorR18.
 Import ListNotations.
@@ -28,8 +31,10 @@ Fixpoint zinsert (x : Z) (l : list Z) : list Z :=
 Definition epsg_table_sorted : list Z := fold_right zinsert [] epsg_table.
 
 (* ------------------------------------------------------------------------------------------------------------------ *)
-(* 1. the wrappers                                                                                                      *)
+(* 1. the wrappers (control flow of /repo after the fix commits e07a6eb and dbefda0)                                   *)
 Section Wrapper.
+  (* known c = (wgs84.EPSG().Code(c) != nil): the code is in the library's table *)
+  Variable known : Z -> bool.
   (* tr from to a b c = wgs84.SafeTransform(wgs84.EPSG().Code(from), wgs84.EPSG().Code(to))(a, b, c); None = non-nil error *)
   Variable tr : Z -> Z -> float -> float -> float -> option (float * float * float).
 
@@ -38,17 +43,11 @@ Section Wrapper.
     | Some (x, y, _) => Some {| px := x; py := y; pz := palt p |}     (* the height returned by the transform is dropped *)
     | None => None
     end.
-  (* NewPoint's error is ignored by the code: the (partially filled) object is appended whatever happens *)
+  (* the transformed coordinates go through object.NewPoint; its refusal is a conversion error as well *)
   Definition back_point (crs : Z) (q : ppoint) : option point :=
     match tr crs geo_crs (px q) (py q) (pz q) with
-    | Some (x, y, _) => Some (fst (new_point x y (pz q)))
+    | Some (x, y, _) => let '(g, e) := new_point x y (pz q) in if e then None else Some g
     | None => None
-    end.
-  (* NewPoint refused the back-converted coordinates (and the code did not look) *)
-  Definition back_overshoot (crs : Z) (q : ppoint) : bool :=
-    match tr crs geo_crs (px q) (py q) (pz q) with
-    | Some (x, y, _) => snd (new_point x y (pz q))
-    | None => false
     end.
 
   (* `for _, p := range l { v, err := f(p); if err != nil { return out, error }; out = append(out, v) }; return out, nil` *)
@@ -61,12 +60,25 @@ Section Wrapper.
                 end
     end.
 
-  Definition to_projected (l : list point) (crs : Z) : list ppoint * bool := map_until (fwd_point crs) l.
-  Definition to_geographic (l : list ppoint) (crs : Z) : list point * bool := map_until (back_point crs) l.
+  (* `if proCrsCode == nil { return empty, error }` comes before the loop: also for the empty list *)
+  Definition to_projected (l : list point) (crs : Z) : list ppoint * bool :=
+    if known crs then map_until (fwd_point crs) l else ([], true).
+  Definition to_geographic (l : list ppoint) (crs : Z) : list point * bool :=
+    if known crs then map_until (back_point crs) l else ([], true).
   (* there and back through the same CRS (the second call is made only when the first returned no error) *)
   Definition round_trip (l : list point) (crs : Z) : (list ppoint * bool) * (list point * bool) :=
     let f := to_projected l crs in
     (f, if snd f then ([], false) else to_geographic (fst f) crs).
+
+  (* HISTORICAL: the control flow before the two fix commits (no early check of the code; NewPoint's verdict ignored).
+     Kept only for the regression Examples of section 4; nothing else refers to it. *)
+  Definition back_point_old (crs : Z) (q : ppoint) : option point :=
+    match tr crs geo_crs (px q) (py q) (pz q) with
+    | Some (x, y, _) => Some (fst (new_point x y (pz q)))
+    | None => None
+    end.
+  Definition to_projected_old (l : list point) (crs : Z) : list ppoint * bool := map_until (fwd_point crs) l.
+  Definition to_geographic_old (l : list ppoint) (crs : Z) : list point * bool := map_until (back_point_old crs) l.
 End Wrapper.
 
 (* ------------------------------------------------------------------------------------------------------------------ *)
@@ -136,7 +148,7 @@ Fixpoint forall2b {A B} (f : A -> B -> bool) (l : list A) (m : list B) : bool :=
   end.
 
 (* ------------------------------------------------------------------------------------------------------------------ *)
-(* 2. structural theorems, for every oracle                                                                            *)
+(* 2. structural theorems, for every table `known` and every transform `tr`                                            *)
 Lemma map_until_ok {A B} (f : A -> option B) l :
   snd (map_until f l) = false -> Forall2 (fun a b => f a = Some b) l (fst (map_until f l)).
 Proof.
@@ -165,16 +177,24 @@ Proof.
     destruct (IH H) as (l1 & a' & l2 & -> & Hn & HF). exists (a :: l1), a', l2. repeat split; auto.
   - intros _. exists [], a, r. repeat split; auto. constructor.
 Qed.
-Lemma map_until_all_none {A B} (f : A -> option B) l : (forall a, f a = None) -> l <> [] -> map_until f l = ([], true).
-Proof. intros H N. destruct l as [|a r]; [congruence|]. cbn [map_until]. now rewrite H. Qed.
 Lemma Forall2_impl {A B} (R S : A -> B -> Prop) l m : (forall a b, R a b -> S a b) -> Forall2 R l m -> Forall2 S l m.
 Proof. intros H. induction 1; constructor; auto. Qed.
 Lemma Forall2_length' {A B} (R : A -> B -> Prop) l m : Forall2 R l m -> length l = length m.
 Proof. induction 1; cbn; congruence. Qed.
 
+(* object.NewPoint *)
+Lemma new_point_accepts x y a : snd (new_point x y a) = false ->
+  fst (new_point x y a) = {| plon := x; plat := setlat_trunc y; palt := a |}.
+Proof. unfold new_point. destruct (180 <? abs x)%float; [discriminate|]. destruct (c_latmax <? abs (setlat_trunc y))%float; [discriminate|]. reflexivity. Qed.
+Lemma new_point_refuses x y a : snd (new_point x y a) = true ->
+  plat (fst (new_point x y a)) = 0%float /\ palt (fst (new_point x y a)) = 0%float.
+Proof. unfold new_point. destruct (180 <? abs x)%float; [split; reflexivity|]. destruct (c_latmax <? abs (setlat_trunc y))%float; [split; reflexivity|discriminate]. Qed.
+
 Section WrapperThm.
+  Variable known : Z -> bool.
   Variable tr : Z -> Z -> float -> float -> float -> option (float * float * float).
 
+  (* ---- forward ---- *)
   (* what one output element of the forward direction is *)
   Definition fwd_rel (crs : Z) (p : point) (q : ppoint) : Prop :=
     exists x y z, tr geo_crs crs (plon p) (plat p) (palt p) = Some (x, y, z) /\ px q = x /\ py q = y /\ pz q = palt p.
@@ -189,117 +209,137 @@ Section WrapperThm.
   Lemma fwd_point_none crs p : fwd_point tr crs p = None <-> tr geo_crs crs (plon p) (plat p) (palt p) = None.
   Proof. unfold fwd_point. destruct (tr _ _ _ _ _) as [[[x y] z]|]; split; congruence. Qed.
 
-  (* no error: the i-th output is the transform of the i-th input (length and order), with the input's altitude bit for bit *)
+  Lemma to_projected_known l crs : snd (to_projected known tr l crs) = false -> known crs = true.
+  Proof. unfold to_projected. destruct (known crs); [reflexivity | discriminate]. Qed.
+  Lemma to_geographic_known l crs : snd (to_geographic known tr l crs) = false -> known crs = true.
+  Proof. unfold to_geographic. destruct (known crs); [reflexivity | discriminate]. Qed.
+
+  (* no error: the code is known, the i-th output is the transform of the i-th input (length and order), with the input's altitude *)
   Theorem to_projected_ok l crs :
-    snd (to_projected tr l crs) = false -> Forall2 (fwd_rel crs) l (fst (to_projected tr l crs)).
+    snd (to_projected known tr l crs) = false -> Forall2 (fwd_rel crs) l (fst (to_projected known tr l crs)).
   Proof.
-    intros H. apply map_until_ok in H. eapply Forall2_impl; [|exact H]. intros p q. apply fwd_point_rel.
+    intros H. pose proof (to_projected_known _ _ H) as K. unfold to_projected in *. rewrite K in *.
+    apply map_until_ok in H. eapply Forall2_impl; [|exact H]. intros p q. apply fwd_point_rel.
   Qed.
-  Corollary to_projected_length l crs : snd (to_projected tr l crs) = false -> length (fst (to_projected tr l crs)) = length l.
+  Corollary to_projected_length l crs :
+    snd (to_projected known tr l crs) = false -> length (fst (to_projected known tr l crs)) = length l.
   Proof. intros H. symmetry. eapply Forall2_length', to_projected_ok, H. Qed.
-  Corollary to_projected_altitude l crs i p q :
-    snd (to_projected tr l crs) = false -> nth_error l i = Some p -> nth_error (fst (to_projected tr l crs)) i = Some q -> pz q = palt p.
-  Proof.
-    intros H. pose proof (to_projected_ok l crs H) as F. clear H.
-    set (m := fst (to_projected tr l crs)) in *. clearbody m. revert i.
-    induction F as [|a b l' m' R F IH]; intros i Hp Hq.
-    - destruct i; discriminate.
-    - destruct i as [|i]; cbn [nth_error] in Hp, Hq.
-      + inversion Hp; inversion Hq; subst. destruct R as (? & ? & ? & _ & _ & _ & E). exact E.
-      + eapply IH; eauto.
-  Qed.
-  (* the error result is returned exactly when the transform refuses some point *)
+  (* the error result is returned exactly when the code is unknown or the transform refuses some point *)
   Theorem to_projected_err_iff l crs :
-    snd (to_projected tr l crs) = true <-> Exists (fun p => tr geo_crs crs (plon p) (plat p) (palt p) = None) l.
+    snd (to_projected known tr l crs) = true <->
+    known crs = false \/ Exists (fun p => tr geo_crs crs (plon p) (plat p) (palt p) = None) l.
   Proof.
-    unfold to_projected. rewrite map_until_err_iff. split; intros H; (eapply Exists_impl; [|exact H]); intros p; apply fwd_point_none.
+    unfold to_projected. destruct (known crs).
+    - rewrite map_until_err_iff. split.
+      + intros H. right. eapply Exists_impl; [|exact H]. intros p. apply fwd_point_none.
+      + intros [H|H]; [discriminate|]. eapply Exists_impl; [|exact H]. intros p. apply fwd_point_none.
+    - cbn [snd]. split; auto.
   Qed.
-  (* and the list returned with the error holds the images of the points before the first refused one *)
-  Theorem to_projected_err_prefix l crs :
-    snd (to_projected tr l crs) = true ->
+  (* and, for a known code, the list returned with the error holds the images of the points before the first refused one *)
+  Theorem to_projected_err_prefix l crs : known crs = true ->
+    snd (to_projected known tr l crs) = true ->
     exists l1 p l2, l = l1 ++ p :: l2 /\ tr geo_crs crs (plon p) (plat p) (palt p) = None /\
-                    Forall2 (fwd_rel crs) l1 (fst (to_projected tr l crs)).
+                    Forall2 (fwd_rel crs) l1 (fst (to_projected known tr l crs)).
   Proof.
-    intros H. destruct (map_until_prefix _ _ H) as (l1 & p & l2 & E & Hn & F). exists l1, p, l2. repeat split; auto.
+    unfold to_projected. intros K. rewrite K. intros H.
+    destruct (map_until_prefix _ _ H) as (l1 & p & l2 & E & Hn & F). exists l1, p, l2. repeat split; auto.
     - now apply fwd_point_none.
     - eapply Forall2_impl; [|exact F]. intros a b. apply fwd_point_rel.
   Qed.
-  (* a CRS the library does not know (the transform refuses everything): conversion error for every non-empty list ... *)
-  Theorem to_projected_unknown_epsg l crs :
-    (forall a b c, tr geo_crs crs a b c = None) -> l <> [] -> to_projected tr l crs = ([], true).
-  Proof. intros H N. apply map_until_all_none; auto. intros p. apply fwd_point_none, H. Qed.
 
   (* ---- backward ---- *)
+  (* one output element: the transformed coordinates, accepted by NewPoint, latitude truncated by SetLat, the input's altitude *)
   Definition back_rel (crs : Z) (q : ppoint) (g : point) : Prop :=
-    exists x y z, tr crs geo_crs (px q) (py q) (pz q) = Some (x, y, z) /\ g = fst (new_point x y (pz q)).
+    exists x y z, tr crs geo_crs (px q) (py q) (pz q) = Some (x, y, z) /\ snd (new_point x y (pz q)) = false /\
+                  g = {| plon := x; plat := setlat_trunc y; palt := pz q |}.
+  (* a point is refused when the transform refuses it or NewPoint refuses the transformed coordinates *)
+  Definition back_refused (crs : Z) (q : ppoint) : Prop :=
+    tr crs geo_crs (px q) (py q) (pz q) = None \/
+    exists x y z, tr crs geo_crs (px q) (py q) (pz q) = Some (x, y, z) /\ snd (new_point x y (pz q)) = true.
   Lemma back_point_rel crs q g : back_point tr crs q = Some g <-> back_rel crs q g.
   Proof.
     unfold back_point, back_rel. destruct (tr crs geo_crs (px q) (py q) (pz q)) as [[[x y] z]|].
-    - split.
-      + intros H. inversion H; subst. exists x, y, z. auto.
-      + intros (x' & y' & z' & E & ->). inversion E; subst. reflexivity.
+    - destruct (new_point x y (pz q)) as [g' e] eqn:N. split.
+      + destruct e; [discriminate|]. intros H. inversion H; subst. exists x, y, z. rewrite N. cbn [snd]. repeat split.
+        pose proof (new_point_accepts x y (pz q)) as A. rewrite N in A. cbn [fst snd] in A. now apply A.
+      + intros (x' & y' & z' & E & Hs & ->). inversion E; subst. rewrite N in Hs. cbn [snd] in Hs. subst e.
+        pose proof (new_point_accepts x' y' (pz q)) as A. rewrite N in A. cbn [fst snd] in A. now rewrite A.
     - split; [discriminate|]. intros (? & ? & ? & E & _). discriminate.
   Qed.
-  Lemma back_point_none crs q : back_point tr crs q = None <-> tr crs geo_crs (px q) (py q) (pz q) = None.
-  Proof. unfold back_point. destruct (tr _ _ _ _ _) as [[[x y] z]|]; split; congruence. Qed.
+  Lemma back_point_none crs q : back_point tr crs q = None <-> back_refused crs q.
+  Proof.
+    unfold back_point, back_refused. destruct (tr crs geo_crs (px q) (py q) (pz q)) as [[[x y] z]|].
+    - destruct (new_point x y (pz q)) as [g' e] eqn:N. destruct e; split.
+      + intros _. right. exists x, y, z. rewrite N. auto.
+      + reflexivity.
+      + discriminate.
+      + intros [H|(x' & y' & z' & E & Hs)]; [discriminate|]. inversion E; subst. rewrite N in Hs. discriminate.
+    - split; auto.
+  Qed.
 
+  (* no error: length and order, and every output point carries its input's altitude itself *)
   Theorem to_geographic_ok l crs :
-    snd (to_geographic tr l crs) = false -> Forall2 (back_rel crs) l (fst (to_geographic tr l crs)).
+    snd (to_geographic known tr l crs) = false -> Forall2 (back_rel crs) l (fst (to_geographic known tr l crs)).
   Proof.
-    intros H. apply map_until_ok in H. eapply Forall2_impl; [|exact H]. intros p q. apply back_point_rel.
+    intros H. pose proof (to_geographic_known _ _ H) as K. unfold to_geographic in *. rewrite K in *.
+    apply map_until_ok in H. eapply Forall2_impl; [|exact H]. intros p q. apply back_point_rel.
   Qed.
-  Corollary to_geographic_length l crs : snd (to_geographic tr l crs) = false -> length (fst (to_geographic tr l crs)) = length l.
+  Corollary to_geographic_length l crs :
+    snd (to_geographic known tr l crs) = false -> length (fst (to_geographic known tr l crs)) = length l.
   Proof. intros H. symmetry. eapply Forall2_length', to_geographic_ok, H. Qed.
+  Corollary to_geographic_altitude l crs :
+    snd (to_geographic known tr l crs) = false -> Forall2 (fun q g => palt g = pz q) l (fst (to_geographic known tr l crs)).
+  Proof. intros H. eapply Forall2_impl; [|apply to_geographic_ok, H]. intros q g (x & y & z & _ & _ & ->). reflexivity. Qed.
   Theorem to_geographic_err_iff l crs :
-    snd (to_geographic tr l crs) = true <-> Exists (fun q => tr crs geo_crs (px q) (py q) (pz q) = None) l.
+    snd (to_geographic known tr l crs) = true <-> known crs = false \/ Exists (back_refused crs) l.
   Proof.
-    unfold to_geographic. rewrite map_until_err_iff. split; intros H; (eapply Exists_impl; [|exact H]); intros p; apply back_point_none.
+    unfold to_geographic. destruct (known crs).
+    - rewrite map_until_err_iff. split.
+      + intros H. right. eapply Exists_impl; [|exact H]. intros p. apply back_point_none.
+      + intros [H|H]; [discriminate|]. eapply Exists_impl; [|exact H]. intros p. apply back_point_none.
+    - cbn [snd]. split; auto.
   Qed.
-  Theorem to_geographic_unknown_epsg l crs :
-    (forall a b c, tr crs geo_crs a b c = None) -> l <> [] -> to_geographic tr l crs = ([], true).
-  Proof. intros H N. apply map_until_all_none; auto. intros p. apply back_point_none, H. Qed.
-End WrapperThm.
-
-(* object.NewPoint as called by the backward direction (error ignored) *)
-Lemma new_point_accepts x y a : snd (new_point x y a) = false ->
-  fst (new_point x y a) = {| plon := x; plat := setlat_trunc y; palt := a |}.
-Proof. unfold new_point. destruct (180 <? abs x)%float; [discriminate|]. destruct (c_latmax <? abs (setlat_trunc y))%float; [discriminate|]. reflexivity. Qed.
-Lemma new_point_refuses x y a : snd (new_point x y a) = true ->
-  plat (fst (new_point x y a)) = 0%float /\ palt (fst (new_point x y a)) = 0%float.
-Proof. unfold new_point. destruct (180 <? abs x)%float; [split; reflexivity|]. destruct (c_latmax <? abs (setlat_trunc y))%float; [split; reflexivity|discriminate]. Qed.
-
-Section BackAltitude.
-  Variable tr : Z -> Z -> float -> float -> float -> option (float * float * float).
-  (* backward: the altitude is carried bit for bit for every point NewPoint accepts; a refused point silently becomes (lon or 0, 0, 0) *)
-  Theorem to_geographic_altitude l crs :
-    snd (to_geographic tr l crs) = false ->
-    Forall2 (fun q g => (back_overshoot tr crs q = false -> palt g = pz q) /\
-                        (back_overshoot tr crs q = true -> palt g = 0%float /\ plat g = 0%float)) l (fst (to_geographic tr l crs)).
+  Theorem to_geographic_err_prefix l crs : known crs = true ->
+    snd (to_geographic known tr l crs) = true ->
+    exists l1 q l2, l = l1 ++ q :: l2 /\ back_refused crs q /\ Forall2 (back_rel crs) l1 (fst (to_geographic known tr l crs)).
   Proof.
-    intros H. eapply Forall2_impl; [|apply to_geographic_ok, H]. intros q g (x & y & z & E & ->).
-    unfold back_overshoot. rewrite E. split; intros Hs.
-    - now rewrite (new_point_accepts _ _ _ Hs).
-    - destruct (new_point_refuses _ _ _ Hs). auto.
+    unfold to_geographic. intros K. rewrite K. intros H.
+    destruct (map_until_prefix _ _ H) as (l1 & p & l2 & E & Hn & F). exists l1, p, l2. repeat split; auto.
+    - now apply back_point_none.
+    - eapply Forall2_impl; [|exact F]. intros a b. apply back_point_rel.
   Qed.
-  (* there and back: same length; every point keeps its altitude unless the back conversion overshoots the latitude limit *)
+
+  (* ---- unknown EPSG code: conversion error with the empty list, whatever the input (also the empty one), both directions ---- *)
+  Theorem unknown_epsg crs : known crs = false ->
+    (forall l, to_projected known tr l crs = ([], true)) /\ (forall l, to_geographic known tr l crs = ([], true)).
+  Proof. intros K. unfold to_projected, to_geographic. rewrite K. split; reflexivity. Qed.
+
+  (* ---- there and back: same length, same order, every point keeps its altitude ---- *)
   Theorem round_trip_shape l crs :
-    let r := round_trip tr l crs in
+    let r := round_trip known tr l crs in
     snd (fst r) = false -> snd (snd r) = false ->
     length (fst (snd r)) = length l /\
-    Forall2 (fun p g => exists q, fwd_rel tr crs p q /\ back_rel tr crs q g /\ (back_overshoot tr crs q = false -> palt g = palt p))
-            l (fst (snd r)).
+    Forall2 (fun p g => exists q, fwd_rel crs p q /\ back_rel crs q g /\ palt g = palt p) l (fst (snd r)).
   Proof.
     unfold round_trip. cbn zeta. cbn [fst snd]. intros H1. rewrite H1. intros H2.
-    pose proof (to_projected_ok tr l crs H1) as F1. pose proof (to_geographic_ok tr _ crs H2) as F2.
-    pose proof (to_geographic_altitude _ crs H2) as F3.
+    pose proof (to_projected_ok l crs H1) as F1. pose proof (to_geographic_ok _ crs H2) as F2.
     split. { rewrite to_geographic_length, to_projected_length; auto. }
-    set (ql := fst (to_projected tr l crs)) in *. set (gl := fst (to_geographic tr ql crs)) in *. clearbody gl. clearbody ql.
-    clear H1 H2. revert gl F2 F3.
-    induction F1 as [|p q l' ql' R F IH]; intros gl F2 F3; inversion F2 as [|? g ? gl' Hb F2']; subst; [constructor|].
-    inversion F3 as [|? ? ? ? [Ha _] F3']; subst. constructor; [|apply IH; auto].
-    exists q. repeat split; auto. intros Ho. rewrite (Ha Ho). destruct R as (? & ? & ? & _ & _ & _ & E). exact E.
+    set (ql := fst (to_projected known tr l crs)) in *. set (gl := fst (to_geographic known tr ql crs)) in *. clearbody gl. clearbody ql.
+    clear H1 H2. revert gl F2.
+    induction F1 as [|p q l' ql' R F IH]; intros gl F2; inversion F2 as [|? g ? gl' Hb F2']; subst; [constructor|].
+    constructor; [|apply IH; auto].
+    exists q. repeat split; auto. destruct Hb as (x & y & z & _ & _ & ->). cbn [palt].
+    destruct R as (? & ? & ? & _ & _ & _ & E). exact E.
   Qed.
-End BackAltitude.
+  (* the back conversion of a round trip fails exactly when some projected image is refused *)
+  Theorem round_trip_back_error l crs :
+    let r := round_trip known tr l crs in
+    snd (fst r) = false -> (snd (snd r) = true <-> Exists (back_refused crs) (fst (fst r))).
+  Proof.
+    unfold round_trip. cbn zeta. cbn [fst snd]. intros H1. rewrite H1. rewrite to_geographic_err_iff.
+    rewrite (to_projected_known _ _ H1). split; [intros [H|H]; [discriminate | exact H] | auto].
+  Qed.
+End WrapperThm.
 
 (* ------------------------------------------------------------------------------------------------------------------ *)
 (* 3b. soundness of the exact checkers over the reals                                                                  *)
@@ -437,32 +477,11 @@ Qed.
 
 Local Close Scope R_scope.
 (* ------------------------------------------------------------------------------------------------------------------ *)
-(* 4. finding classes: where the property is false of the faithful model / of the code, with witnesses                 *)
+(* 4. the open finding (witness), the two repaired defects (regression Examples), non-vacuity                          *)
 
-(* D19  unknown_epsg_empty_list: an EPSG code the library does not know is NOT reported when the list is empty (the loop body,
-   where the transform's error surfaces, never runs). True for every oracle, in both directions. *)
-Theorem unknown_epsg_empty_list_refuted :
-  exists crs, epsg_known crs = false /\
-    forall tr, to_projected tr [] crs = ([], false) /\ to_geographic tr [] crs = ([], false).
-Proof. exists 99999%Z. split; [vm_compute; reflexivity | intros tr; split; reflexivity]. Qed.
-
-(* D18  lat_limit_overshoot: when the transform hands back a latitude above 85.0511287798 (here: the two answers recorded from wgs84 v1.1.7 for
-   NewPoint(139, 85.0511287798, 1e6) and for its image), NewPoint refuses it, the code ignores that, and the caller receives
-   (139, 0, 0) with a nil error: latitude and altitude are lost. *)
-Definition tr_d18 (from to : Z) (a b c : float) : option (float * float * float) :=
-  if (from =? 3857)%Z then Some (139, 0x1.54345b1a5d8b3p+06, 0x1.e8480003371e8p+19)%float    (* lat 85.05112878032632 > limit *)
-  else Some (0x1.d8360270c693ep+23, 0x1.31bf8457d6bb8p+24, 0x1.e8480003371ep+19)%float.
-Theorem lat_limit_overshoot_refuted :
-  let p := {| plon := 139; plat := c_latmax; palt := 0x1.e848p+19 |} in    (* alt = 1 000 000 m *)
-  let r := round_trip tr_d18 [p] orth_crs in
-  snd (fst r) = false /\ snd (snd r) = false /\
-  fst (snd r) = [ {| plon := 139; plat := 0; palt := 0 |} ] /\
-  back_overshoot tr_d18 orth_crs {| px := 0x1.d8360270c693ep+23; py := 0x1.31bf8457d6bb8p+24; pz := 0x1.e848p+19 |} = true.
-Proof. vm_compute. repeat split; reflexivity. Qed.
-
-(* D17  alt_fed_to_datum: the height is fed to the datum transform, whose geocentric detour (Bowring's closed formula) is only exact
-   on the ellipsoid. Recorded from the code: NewPoint(139, 35, 1e6) comes back as latitude 35.000000086 (8.6e-8 degrees off) and its
-   northing is 5.8 mm away from the northing of the same point at height 0, which itself passes. The checkers reject the former
+(* D17  alt_fed_to_datum (OPEN): the height is fed to the datum transform, whose geocentric detour (Bowring's closed formula) is only
+   exact on the ellipsoid. Recorded from the code: NewPoint(139, 35, 1e6) comes back as latitude 35.000000086 (8.6e-8 degrees off) and
+   its northing is 5.8 mm away from the northing of the same point at height 0, which itself passes. The checkers reject the former
    and accept the latter. *)
 Example alt_fed_to_datum_witness :
   let p  := {| plon := 139; plat := 35; palt := 0x1.e848p+19 |} in
@@ -473,6 +492,34 @@ Example alt_fed_to_datum_witness :
   (* observed northings 4163881.1499103857 (at 1e6 m) and 4163881.1440642914 (at 0 m) *)
   fclose 0x1.fc49493304376p+21 0x1.fc4949270b2dep+21 tol_m = false.
 Proof. vm_compute. repeat split; reflexivity. Qed.
+
+(* the two answers recorded from wgs84 v1.1.7 for NewPoint(139, 85.0511287798, 1e6) and for its image: the latitude that comes back,
+   85.05112878032632, is above the limit (a consequence of D17) *)
+Definition tr_d18 (from to : Z) (a b c : float) : option (float * float * float) :=
+  if (from =? 3857)%Z then Some (139, 0x1.54345b1a5d8b3p+06, 0x1.e8480003371e8p+19)%float
+  else Some (0x1.d8360270c693ep+23, 0x1.31bf8457d6bb8p+24, 0x1.e8480003371ep+19)%float.
+Definition p_d18 : point := {| plon := 139; plat := c_latmax; palt := 0x1.e848p+19 |}.    (* alt = 1 000 000 m *)
+Definition q_d18 : ppoint := {| px := 0x1.d8360270c693ep+23; py := 0x1.31bf8457d6bb8p+24; pz := 0x1.e848p+19 |}.
+
+(* REPAIRED by dbefda0 (was D18, lat_limit_overshoot). Current control flow: NewPoint's refusal is a conversion error, nothing is
+   appended for the refused point ... *)
+Example lat_limit_overshoot_now_error :
+  round_trip epsg_known tr_d18 [p_d18] orth_crs = (([q_d18], false), ([], true)).
+Proof. vm_compute. reflexivity. Qed.
+(* ... HISTORICAL behaviour before the repair: no error, and the point came back as (139, 0, 0) *)
+Example lat_limit_overshoot_historical :
+  to_geographic_old tr_d18 [q_d18] orth_crs = ([ {| plon := 139; plat := 0; palt := 0 |} ], false).
+Proof. vm_compute. reflexivity. Qed.
+
+(* REPAIRED by e07a6eb (was D19, unknown_epsg_empty_list). Current control flow: see `unknown_epsg`; on the regression input ... *)
+Example unknown_epsg_empty_list_now_error :
+  epsg_known 99999 = false /\
+  forall tr, to_projected epsg_known tr [] 99999 = ([], true) /\ to_geographic epsg_known tr [] 99999 = ([], true).
+Proof. split; [vm_compute; reflexivity | intros tr; split; reflexivity]. Qed.
+(* ... HISTORICAL behaviour before the repair: the loop body, where the transform's error surfaced, never ran for the empty list *)
+Example unknown_epsg_empty_list_historical :
+  forall tr crs, to_projected_old tr [] crs = ([], false) /\ to_geographic_old tr [] crs = ([], false).
+Proof. intros tr crs. split; reflexivity. Qed.
 
 (* non-vacuity of the checkers: the observed image of (139, 35, 0) passes the easting check, +-180 are the same meridian *)
 Example check_x_nonvacuous : check_x 0x1.d8360270c693ep+23 139 = true /\ check_x 0x1.d8360270c693ep+23 0x1.16p+07 = true /\
@@ -486,28 +533,35 @@ Example checkers_nonvacuous :
 Proof. vm_compute. repeat split; reflexivity. Qed.
 Example epsg_table_size : length epsg_table = 167%nat /\ epsg_known 3857 = true /\ epsg_known 32654 = true /\ epsg_known 3395 = false.
 Proof. vm_compute. repeat split; reflexivity. Qed.
-(* a two-point list through a toy transform: order and altitudes are the input's *)
+(* a two-point list through a toy transform: order and altitudes are the input's; the same list under an unknown code *)
 Example to_projected_nonvacuous :
   let tr := fun (_ _ : Z) (a b c : float) => Some ((a + a)%float, (b + 1)%float, 0%float) in
-  to_projected tr [ {| plon := 1; plat := 2; palt := 3 |}; {| plon := 1; plat := 2; palt := 4 |} ] 3857
-  = ([ {| px := 2; py := 3; pz := 3 |}; {| px := 2; py := 3; pz := 4 |} ], false).
+  let l := [ {| plon := 1; plat := 2; palt := 3 |}; {| plon := 1; plat := 2; palt := 4 |} ] in
+  to_projected epsg_known tr l 3857 = ([ {| px := 2; py := 3; pz := 3 |}; {| px := 2; py := 3; pz := 4 |} ], false) /\
+  to_projected epsg_known tr l 3395 = ([], true).
+Proof. vm_compute. split; reflexivity. Qed.
+(* backward through a toy transform: the second point maps to latitude 86 and is refused; the first one is returned with the error *)
+Example to_geographic_nonvacuous :
+  let tr := fun (_ _ : Z) (a b c : float) => Some (a, b, 0%float) in
+  to_geographic epsg_known tr [ {| px := 10; py := 20; pz := 0x1.b2fffffffffffp+8 |}; {| px := 10; py := 86; pz := 7 |} ] 3857
+  = ([ {| plon := 10; plat := 20; palt := 0x1.b2fffffffffffp+8 |} ], true).
 Proof. vm_compute. reflexivity. Qed.
 
 (* ------------------------------------------------------------------------------------------------------------------ *)
 (* 5. statements in the form used by properties/C18.v *)
-Theorem unknown_epsg_partial (tr : Z -> Z -> float -> float -> float -> option (float * float * float)) crs :
-  (forall a b c, tr geo_crs crs a b c = None) -> (forall a b c, tr crs geo_crs a b c = None) ->
-  (forall l, l <> [] -> to_projected tr l crs = ([], true)) /\ (forall l, l <> [] -> to_geographic tr l crs = ([], true)).
-Proof. intros H1 H2. split; intros l N; [now apply to_projected_unknown_epsg | now apply to_geographic_unknown_epsg]. Qed.
-Theorem to_geographic_spec (tr : Z -> Z -> float -> float -> float -> option (float * float * float)) l crs :
-  snd (to_geographic tr l crs) = false ->
-  Forall2 (back_rel tr crs) l (fst (to_geographic tr l crs)) /\
-  Forall2 (fun q g => (back_overshoot tr crs q = false -> palt g = pz q) /\
-                      (back_overshoot tr crs q = true -> palt g = 0%float /\ plat g = 0%float)) l (fst (to_geographic tr l crs)).
-Proof. intros H. split; [now apply to_geographic_ok | now apply to_geographic_altitude]. Qed.
-Theorem error_iff (tr : Z -> Z -> float -> float -> float -> option (float * float * float)) crs :
-  (forall l, snd (to_projected tr l crs) = true <-> Exists (fun p => tr geo_crs crs (plon p) (plat p) (palt p) = None) l) /\
-  (forall l, snd (to_geographic tr l crs) = true <-> Exists (fun q => tr crs geo_crs (px q) (py q) (pz q) = None) l).
+Theorem to_geographic_spec (known : Z -> bool) (tr : Z -> Z -> float -> float -> float -> option (float * float * float)) l crs :
+  snd (to_geographic known tr l crs) = false ->
+  Forall2 (fun q g => exists x y z, tr crs geo_crs (px q) (py q) (pz q) = Some (x, y, z) /\ snd (new_point x y (pz q)) = false /\
+                                    g = {| plon := x; plat := setlat_trunc y; palt := pz q |})
+          l (fst (to_geographic known tr l crs)).
+Proof. apply to_geographic_ok. Qed.
+Theorem error_iff (known : Z -> bool) (tr : Z -> Z -> float -> float -> float -> option (float * float * float)) crs :
+  (forall l, snd (to_projected known tr l crs) = true <->
+             known crs = false \/ Exists (fun p => tr geo_crs crs (plon p) (plat p) (palt p) = None) l) /\
+  (forall l, snd (to_geographic known tr l crs) = true <->
+             known crs = false \/
+             Exists (fun q => tr crs geo_crs (px q) (py q) (pz q) = None \/
+                              exists x y z, tr crs geo_crs (px q) (py q) (pz q) = Some (x, y, z) /\ snd (new_point x y (pz q)) = true) l).
 Proof. split; intros l; [apply to_projected_err_iff | apply to_geographic_err_iff]. Qed.
 
 (* ------------------------------------------------------------------------------------------------------------------ *)
